@@ -2,6 +2,8 @@ package main
 
 import (
 	"fmt"
+	"go/ast"
+	"go/token"
 	"strings"
 )
 
@@ -27,6 +29,108 @@ func extraFacts(lf *leanFile) {
 		miss("extendedcopy.go:fetchArtifactType switch desc.MediaType")
 	}
 	lf.def("fetchATCases", "List (String × List String)", "["+strings.Join(rows, ",\n   ")+"]")
+	ociFacts(lf)
+}
+
+// ociFacts: structural facts about content/oci/oci.go that the OCI model is parameterised by.
+func ociFacts(lf *leanFile) {
+	// gcIndex: is the walk's loop variable `subject` ever assigned (`subject = …`), or only
+	// shadowed by `subject, err := …`?
+	advances := "false"
+	found := false
+	if fd := funcDecl("content/oci/oci.go", "Store", "gcIndex"); fd != nil {
+		ast.Inspect(fd.Body, func(n ast.Node) bool {
+			as, ok := n.(*ast.AssignStmt)
+			if !ok {
+				return true
+			}
+			for _, r := range as.Rhs {
+				if c, ok := r.(*ast.CallExpr); ok && exprString(c.Fun) == "manifestutil.Subject" {
+					found = true
+				}
+			}
+			if as.Tok == token.ASSIGN {
+				for _, l := range as.Lhs {
+					if id, ok := l.(*ast.Ident); ok && id.Name == "subject" {
+						advances = "true"
+					}
+				}
+			}
+			return true
+		})
+	}
+	if !found {
+		miss("content/oci/oci.go:gcIndex manifestutil.Subject call")
+	}
+	lf.def("gcWalkAdvances", "Bool", advances)
+	// GC: is the index saved after gcIndex?
+	saves := "false"
+	if fd := funcDecl("content/oci/oci.go", "Store", "GC"); fd != nil {
+		ast.Inspect(fd.Body, func(n ast.Node) bool {
+			if c, ok := n.(*ast.CallExpr); ok {
+				if f := exprString(c.Fun); f == "s.saveIndex" || f == "s.writeIndexFile" {
+					saves = "true"
+				}
+			}
+			return true
+		})
+	} else {
+		miss("content/oci/oci.go:GC")
+	}
+	lf.def("gcSavesIndex", "Bool", saves)
+	// Delete: how many times is isTagged consulted (danglings only, or referrers too)?
+	nTagged := 0
+	if fd := funcDecl("content/oci/oci.go", "Store", "Delete"); fd != nil {
+		ast.Inspect(fd.Body, func(n ast.Node) bool {
+			if c, ok := n.(*ast.CallExpr); ok && exprString(c.Fun) == "s.isTagged" {
+				nTagged++
+			}
+			return true
+		})
+	} else {
+		miss("content/oci/oci.go:Delete")
+	}
+	lf.def("deleteIsTaggedCalls", "Nat", fmt.Sprint(nTagged))
+	// Delete: does the cascade check storage existence of queued nodes?
+	checks := "false"
+	if fd := funcDecl("content/oci/oci.go", "Store", "Delete"); fd != nil {
+		ast.Inspect(fd.Body, func(n ast.Node) bool {
+			if c, ok := n.(*ast.CallExpr); ok && exprString(c.Fun) == "s.storage.Exists" {
+				checks = "true"
+			}
+			return true
+		})
+	}
+	lf.def("deleteSkipsAbsent", "Bool", checks)
+	lf.def("ociCalls", "List (String × List String)", "["+strings.Join([]string{
+		callList("content/oci/oci.go", "Store", "Delete"),
+		callList("content/oci/oci.go", "Store", "delete"),
+		callList("content/oci/oci.go", "Store", "writeIndexFile"),
+		callList("content/oci/oci.go", "Store", "saveIndex"),
+		callList("content/oci/oci.go", "Store", "GC"),
+		callList("content/oci/storage.go", "Storage", "Push"),
+		callList("content/oci/storage.go", "Storage", "ingest"),
+		callList("content/oci/storage.go", "Storage", "Delete"),
+	}, ",\n   ")+"]")
+}
+
+// callList: the ordered list of selector calls (pkg.Func / recv.Method) in a function body.
+func callList(file, recv, fn string) string {
+	fd := funcDecl(file, recv, fn)
+	var calls []string
+	if fd == nil {
+		miss(file + ":" + fn)
+	} else {
+		ast.Inspect(fd.Body, func(n ast.Node) bool {
+			if c, ok := n.(*ast.CallExpr); ok {
+				if _, ok := c.Fun.(*ast.SelectorExpr); ok {
+					calls = append(calls, exprString(c.Fun))
+				}
+			}
+			return true
+		})
+	}
+	return fmt.Sprintf("(%s, %s)", leanStr(recv+"."+fn), leanStrList(calls))
 }
 
 func extraFiles() { regexFile() }
